@@ -58,6 +58,10 @@ Error BaseAssembler::section(Section* section) {
     return report_error(make_error(Error::kNotInitialized));
   }
 
+  if (ASMJIT_UNLIKELY(!section)) {
+    return report_error(make_error(Error::kInvalidSection));
+  }
+
   if (!_code->is_section_valid(section->section_id()) || _code->_sections[section->section_id()] != section) {
     return report_error(make_error(Error::kInvalidSection));
   }
